@@ -332,6 +332,21 @@ def chunked_fixup(chk, prog):
     w = core.must_pass(body, chunk_calls, reach_ok, through_nodes=adds)
     chk.ob("R4.add_cl", f, "parse_chunk -> Ok passes headers.add(ContentLength, body.len())", w is None,
            "a chunked response can be returned without the Content-Length of the decoded body", path=w, where=body.file)
+    # the end of the chunk list is the end of the body, wherever it comes: from the `None` of every parse_chunk call (the terminating
+    # zero-size chunk) an Ok return is feasible and no error exit is — a first chunk that is *required* rejects the empty chunked body
+    from .. import absreach as _ar
+    err_rets = set(core.ok_return_blocks(body, "Err")) | {b_ for b_, t_ in body.calls_to(r"FromResidual<.*>>::from_residual$|::from_residual$")}
+    for cb in chunk_calls:
+        t_ = body.term(cb)
+        if t_.get("target") is None or t_["dest"]["p"]:
+            chk.ob("R4.end_of_chunks", f, "parse_chunk's result is a plain local the rule can follow", False, "", where=body.where(cb))
+            continue
+        seen_ = _ar.feasible_from(body, [t_["target"]], prog, init={("var", t_["dest"]["l"]): "None"})
+        bad_ = sorted(b_ for b_ in seen_ if b_ in err_rets)
+        ok_ = [o for o in oks if o in seen_]
+        chk.ob("R4.end_of_chunks", f, "parse_chunk -> None (terminating chunk) ends the body: Ok is returned, no error exit is reachable", bool(ok_) and not bad_,
+               "the end of the chunk list can be answered with an error (e.g. when no data chunk came first): a chunked response with an empty body is rejected",
+               where=body.where(bad_[0] if bad_ else cb))
 
 
 def redirect_set(chk, prog, st):
@@ -487,3 +502,4 @@ def run(chk):
     shared.response_reads(chk, prog, "R7.reads")
     shared.response_framing_by_headers(chk, prog, "R7.framing")
     shared.header_line_split(chk, prog, "R7.header_split", "humphrey::http::response::Response::from_stream")
+    shared.no_blind_consume(chk, prog, "R7.no_blind_consume", r"^humphrey::http::(response|request|proxy)::")
